@@ -307,6 +307,10 @@ fn random_history(t: &mut Tape, gates: &Gates) -> Vec<Note> {
                 }
                 _ => text,
             };
+            // degenerate documents now and then: nothing, blanks, a lone comment, unmatched text
+            if t.ratio(1, 10) {
+                docs[u].push((*t.pick(&["", " ", "\n", "(* only a comment *)", "?", "(* never closed", ";"])).to_string());
+            }
             // ... and every text also without / with more trailing blank space
             if t.ratio(1, 3) {
                 docs[u].push(text.trim_end().to_string());
